@@ -12,7 +12,7 @@ def run(chk):
                                     cases=core.run_cases('fixedpoint', chk.tier, chk.seed, {}), jobs=8, timeout=3000)
     chk.validate('fixed-point', 'Trace_MM', 'Trace_MM.cfg', recs, driver='fixedpoint', jobs=14)
     goods = [r for r in recs if r['exc'] == '' and r['full'][1] >= 2]
-    good = goods[0]
+    good = goods[0] if goods else None
 
     def corrupt(r):
         d = r['truth']['data']
